@@ -56,7 +56,7 @@ CONFIG = {
 REQUIRED = ['adjust_calls', 'params_formula_checked', 'rows_formula_checked', 'nonfinite_rows_dropped', 'params_with_own_nonfinite',
             'unused_summary_nonfinite_kept', 'unchanged_draws_checked', 'affine_params_checked', 'subset_parameter_cases',
             'reordered_summary_cases', 'e2e_rejection_cases', 'compare_calls', 'compare_formula_checked', 'compare_sum_checked',
-            'compare_permutation_checked', 'compare_mixed_shares', 'compare_with_priors', 'compare_unequal_n_sim', 'compare_unequal_n_samples']
+            'compare_permutation_checked', 'compare_mixed_shares', 'compare_with_priors', 'compare_integer_priors', 'compare_unequal_n_sim', 'compare_unequal_n_samples']
 
 
 # ----------------------------------------------------------------------------------------
@@ -98,7 +98,7 @@ def gen_cases(ctx):
             case = {'kind': 'compare', 'seed': seed, 'n_models': nm,
                     'n_samples': [1 if rng.random() < 0.06 else int(rng.choice([3, 5, 8, 13, 20, 40, 60])) for _ in range(nm)],
                     'n_sim': [int(rng.choice([10, 100, 100, 250, 1000, 12345])) for _ in range(nm)],
-                    'priors': str(rng.choice(['none', 'normalised', 'unnormalised'])),
+                    'priors': str(rng.choice(['none', 'normalised', 'unnormalised', 'integer', 'integer_list'])),
                     'sorted': bool(rng.random() < 0.5),
                     'overlap': str(rng.choice(['full', 'full', 'shifted', 'shifted', 'disjoint']))}
             yield case
@@ -344,6 +344,10 @@ def _run_compare(ctx, case):
         priors = rg.uniform(0.05, 1.0, size=nm)
         if case['priors'] == 'normalised':
             priors = priors / priors.sum()
+        elif case['priors'] in ('integer', 'integer_list'):
+            # prior odds written as whole numbers (an integer array or a plain list of ints) are positive weights too
+            priors = rg.integers(1, int(rg.choice([4, 10, 1000])), size=nm)
+            ctx.event('compare_integer_priors')
         else:
             priors = priors * float(rg.choice([0.5, 3.0, 10.0]))
 
@@ -354,7 +358,9 @@ def _run_compare(ctx, case):
 
     objs = [mk(i) for i in range(nm)]
     ref, share = _compare_ref(disc, case['n_sim'], None if priors is None else priors.tolist())
-    got = np.asarray(compare_models(objs, None if priors is None else priors.copy()), dtype=float)
+    def _pw(pr):
+        return None if pr is None else ([int(x) for x in pr] if case['priors'] == 'integer_list' else pr.copy())
+    got = np.asarray(compare_models(objs, _pw(priors)), dtype=float)
     ctx.event('compare_calls')
     if got.shape != (nm,):
         raise Violation('compare-shape', 'compare_models returned shape %r for %d models' % (got.shape, nm))
@@ -376,7 +382,7 @@ def _run_compare(ctx, case):
     perm = rg.permutation(nm)
     if np.array_equal(perm, np.arange(nm)):
         perm = np.roll(perm, 1)
-    got2 = np.asarray(compare_models([objs[i] for i in perm], None if priors is None else priors[perm].copy()), dtype=float)
+    got2 = np.asarray(compare_models([objs[i] for i in perm], _pw(None if priors is None else priors[perm])), dtype=float)
     if got2.shape != (nm,) or not np.all(np.abs(got2 - got[perm]) <= 1e-12 + 1e-10 * got[perm]):
         raise Violation('compare-permutation', 'permuting the models by %r gives %r, expected the permuted probabilities %r' % (
             perm.tolist(), got2.tolist(), got[perm].tolist()))
